@@ -451,6 +451,9 @@ type WidenPP struct {
 	processors.DefaultInstantiationAwareComponentPostProcessor
 	Add     string
 	Widened int
+	// ViaArgsMap: the argument is added through the map Property.Args() hands out (TagArg.Add) instead of
+	// Property.AddArg
+	ViaArgsMap bool
 }
 
 func (p *WidenPP) Naming() string { return "verif.widenpp" }
@@ -465,7 +468,11 @@ func (p *WidenPP) PostProcessProperties(props []*component_definition.Property, 
 			if vals, _ := pr.Args().Find(component_definition.ArgQualifier); len(vals) == 1 && vals[0] == "" {
 				continue // a bare "qualifier" argument is left alone
 			}
-			pr.AddArg("qualifier", p.Add)
+			if p.ViaArgsMap {
+				pr.Args().Add("qualifier", p.Add)
+			} else {
+				pr.AddArg("qualifier", p.Add)
+			}
 			p.Widened++
 		}
 	}
